@@ -536,7 +536,7 @@ class RDD:
             self,
             lambda tc, iterable: iterable,
             allowLocal=True,
-            resultHandler=lambda l: next(itertools.chain.from_iterable(l)),
+            resultHandler=lambda l: first_of(itertools.chain.from_iterable(l)),
         )
 
     def flatMap(self, f, preservesPartitioning=True):
@@ -2215,6 +2215,17 @@ class MapF:
 
     def __call__(self, tc, i, x):
         return (self.f(xx) for xx in x)
+
+
+def first_of(iterable):
+    """the first element of an iterable; ValueError when there is none
+
+    Not StopIteration: a caller that happens to run inside a generator or
+    map() would take it for the end of its own input.
+    """
+    for element in iterable:
+        return element
+    raise ValueError("RDD is empty")
 
 
 def unit_map(task_context, elements):
